@@ -37,8 +37,11 @@ class Ctx:
     def __init__(self, pid, tier, seed, replay=None):
         self.pid, self.tier, self.seed, self.replay = pid, tier, seed, replay
         self.t0 = time.time()
-        self.work = os.path.join(VERIF, ".work", pid)
         self.repo = REPO
+        # a run against another tree than /repo (VERIF_REPO: seeded changes, old commits) gets its own scratch
+        # directory and never touches /verif/evidence
+        self.foreign = os.path.realpath(REPO) != "/repo"
+        self.work = os.path.join(VERIF, ".work", pid + ("@" + hashlib.sha1(REPO.encode()).hexdigest()[:8] if self.foreign else ""))
         self.violations = []       # list of dict(what=..., replay=path)
         self.known_hit = {}        # finding name -> description
         self.cov = {}              # evidence coverage dict
@@ -145,7 +148,9 @@ class Ctx:
                 txt = txt.replace("@" + k + "@", v)
             open(os.path.join(d, cfgname), "w").write(txt)
         meta = os.path.join(d, "_meta")
-        java = ["java", "-XX:+UseParallelGC", "-Xss64m"]
+        jtmp = os.path.join(d, "_jtmp")      # TLC unpacks the community modules into java.io.tmpdir: keep /tmp clean
+        os.makedirs(jtmp, exist_ok=True)
+        java = ["java", "-XX:+UseParallelGC", "-Xss64m", "-Djava.io.tmpdir=" + jtmp]
         if heap:
             java.append("-Xmx" + heap)
         if deque:
@@ -168,6 +173,7 @@ class Ctx:
             raise Inconclusive("TLC timeout on %s/%s" % (module, cfgname))
         res = TlcResult(r.returncode, r.stdout + r.stderr, d, time.time() - t)
         shutil.rmtree(meta, ignore_errors=True)
+        shutil.rmtree(jtmp, ignore_errors=True)
         return res
 
     # ---------------------------------------------------------------- findings
@@ -216,8 +222,12 @@ class Ctx:
             "known_findings_reproduced": sorted(self.known_hit),
             "notes": self.notes,
         }
-        os.makedirs(os.path.join(VERIF, "evidence"), exist_ok=True)
-        json.dump(ev, open(os.path.join(VERIF, "evidence", self.pid + ".json"), "w"), indent=1, default=str)
+        if self.foreign:
+            ev["notes"] = list(ev["notes"]) + ["run against VERIF_REPO=%s, not /repo" % self.repo]
+            json.dump(ev, open(os.path.join(self.work, "evidence.json"), "w"), indent=1, default=str)
+        else:
+            os.makedirs(os.path.join(VERIF, "evidence"), exist_ok=True)
+            json.dump(ev, open(os.path.join(VERIF, "evidence", self.pid + ".json"), "w"), indent=1, default=str)
         if not self.violations:
             # keep scratch small: drop TLC dirs and binaries unless debugging
             if not os.environ.get("VERIF_KEEP"):
